@@ -1,4 +1,4 @@
-import Verif.Proofs.NumLex
+import Verif.Proofs.NumDecimal
 /-!
 # C08 — Number/Decimal shortening keeps the numeric value
 
@@ -22,5 +22,30 @@ theorem number_value (s : List Char) (p : Int) (hs : isNumber s = true) (hp : p 
   · rw [← h2, numVal_str l' h1, numVal_str l hwf, h4 hp]
 
 example : isNumber "+012.500e-3".toList = true ∧ (0 : Int) ≤ 0 := by decide
+
+
+/-- (a) the result of `Decimal` is never longer than its input — every byte string, every precision -/
+theorem decimal_length (s : List Char) (p : Int) : (decimal s p).length ≤ s.length :=
+  decimal_length_all s p
+
+/-- (b) at precision ≤ 0 `Decimal` returns a lexeme that denotes exactly the same rational -/
+theorem decimal_value (s : List Char) (p : Int) (hs : isDecimal s = true) (hp : p ≤ 0) :
+    numVal (decimal s p) = numVal s := by
+  obtain ⟨l, hwf, rfl, hex⟩ := exists_lex_of_isDecimal hs
+  rcases decimal_lex l hwf hex p with h | ⟨l', h1, _, h3, _, h5⟩
+  · rw [h]
+  · rw [← h3, numVal_str l' h1, numVal_str l hwf, h5 hp]
+
+/-- (c) `Decimal` maps the grammar without exponent into itself, for every precision
+    (it never introduces an exponent) -/
+theorem decimal_grammar (s : List Char) (p : Int) (hs : isDecimal s = true) :
+    isDecimal (decimal s p) = true := by
+  obtain ⟨l, hwf, rfl, hex⟩ := exists_lex_of_isDecimal hs
+  rcases decimal_lex l hwf hex p with h | ⟨l', h1, h2, h3, _, _⟩
+  · rw [h]; exact isDecimal_str l hwf hex
+  · rw [← h3]; exact isDecimal_str l' h1 h2
+
+example : isDecimal "-0099.9500".toList = true := by decide
+example : decimal "99.5".toList 2 = "100".toList ∧ decimal "999.5".toList 3 = "1000".toList := by decide
 
 end Verif.Props.C08
